@@ -33,6 +33,8 @@ type cmpCfg struct {
 	HB      []string `json:"hb"`  // task before hook: none | ok | fail
 	HA      []string `json:"ha"`  // task after hook
 	UpFails []bool   `json:"upFails"`
+	Gr      []int    `json:"gr"`  // 0: stage of the pipeline that is run; 1: stage of the included pipeline
+	Inc     []bool   `json:"inc"` // the stage runs the included pipeline instead of a task
 }
 
 const cmpNCtx = 2
@@ -40,6 +42,22 @@ const cmpNCtx = 2
 func randCompose(rng *rand.Rand, n int) cmpCfg {
 	c := cmpCfg{N: n, Deps: make([][]int, n), Cls: make([]string, n), NCmd: make([]int, n), FailAt: make([]int, n),
 		NVar: make([]int, n), Ctx: make([]int, n), HB: make([]string, n), HA: make([]string, n), UpFails: make([]bool, cmpNCtx)}
+	c.Gr, c.Inc = make([]int, n), make([]bool, n)
+	// a third of the pipelines (of 3 stages or more) include another pipeline, once or twice
+	if n >= 3 && rng.Intn(3) == 0 {
+		inner := 1 + rng.Intn(2)
+		perm := rng.Perm(n)
+		for _, k := range perm[:inner] {
+			c.Gr[k] = 1
+		}
+		incs := 1 + rng.Intn(2)
+		for _, k := range perm[inner:] {
+			if incs > 0 {
+				c.Inc[k] = true
+				incs--
+			}
+		}
+	}
 	rich := rng.Intn(3) > 0 // two thirds of the pipelines use hooks, variations and contexts
 	for k := range c.UpFails {
 		c.UpFails[k] = rich && rng.Intn(5) == 0
@@ -47,18 +65,21 @@ func randCompose(rng *rand.Rand, n int) cmpCfg {
 	for s := 1; s <= n; s++ {
 		c.Deps[s-1] = []int{}
 		for d := 1; d < s; d++ {
-			if rng.Intn(3) == 0 {
+			if rng.Intn(3) == 0 && c.Gr[d-1] == c.Gr[s-1] {
 				c.Deps[s-1] = append(c.Deps[s-1], d)
 			}
 		}
 		c.Cls[s-1] = []string{"OK", "OK", "OK", "FAIL", "FAILA", "CFALSE"}[rng.Intn(6)]
+		if c.Inc[s-1] && c.Cls[s-1] == "FAIL" {
+			c.Cls[s-1] = "OK" // an including stage fails iff the included pipeline does
+		}
 		c.NCmd[s-1] = 1 + rng.Intn(3)
 		c.FailAt[s-1] = 1
 		if c.Cls[s-1] == "FAIL" || c.Cls[s-1] == "FAILA" {
 			c.FailAt[s-1] = 1 + rng.Intn(c.NCmd[s-1])
 		}
 		c.NVar[s-1], c.HB[s-1], c.HA[s-1] = 1, "none", "none"
-		if rich {
+		if rich && !c.Inc[s-1] {
 			c.NVar[s-1] = 1 + rng.Intn(2)
 			c.Ctx[s-1] = rng.Intn(cmpNCtx + 1)
 			c.HB[s-1] = []string{"none", "none", "ok", "ok", "fail"}[rng.Intn(5)]
@@ -94,6 +115,9 @@ func composeYAML(c cmpCfg, rng *rand.Rand) string {
 	}
 	b.WriteString("tasks:\n")
 	for s := 1; s <= c.N; s++ {
+		if c.Inc[s-1] {
+			continue
+		}
 		fmt.Fprintf(&b, "  s%d:\n", s)
 		if c.Ctx[s-1] != 0 {
 			fmt.Fprintf(&b, "    context: c%d\n", c.Ctx[s-1])
@@ -116,30 +140,51 @@ func composeYAML(c cmpCfg, rng *rand.Rand) string {
 			}
 		}
 	}
-	b.WriteString("pipelines:\n  p:\n")
+	b.WriteString("pipelines:\n")
 	order := rng.Perm(c.N)
-	for _, i := range order {
-		s := i + 1
-		fmt.Fprintf(&b, "    - task: s%d\n", s)
-		if len(c.Deps[s-1]) > 0 {
-			var ds []string
-			for _, d := range c.Deps[s-1] {
-				ds = append(ds, fmt.Sprintf("s%d", d))
-			}
-			fmt.Fprintf(&b, "      depends_on: [%s]\n", strings.Join(ds, ", "))
+	for _, graph := range []int{1, 0} {
+		any := false
+		for _, g := range c.Gr {
+			any = any || g == graph
 		}
-		switch c.Cls[s-1] {
-		case "FAILA":
-			b.WriteString("      allow_failure: true\n")
-		case "CFALSE":
-			b.WriteString("      condition: \"false\"\n")
+		if !any {
+			continue
+		}
+		fmt.Fprintf(&b, "  %s:\n", map[int]string{0: "p", 1: "q"}[graph])
+		for _, i := range order {
+			s := i + 1
+			if c.Gr[i] != graph {
+				continue
+			}
+			composeStage(&b, c, s)
 		}
 	}
 	return b.String()
 }
 
+func composeStage(b *strings.Builder, c cmpCfg, s int) {
+	if c.Inc[s-1] {
+		fmt.Fprintf(b, "    - name: s%d\n      pipeline: q\n", s)
+	} else {
+		fmt.Fprintf(b, "    - task: s%d\n", s)
+	}
+	if len(c.Deps[s-1]) > 0 {
+		var ds []string
+		for _, d := range c.Deps[s-1] {
+			ds = append(ds, fmt.Sprintf("s%d", d))
+		}
+		fmt.Fprintf(b, "      depends_on: [%s]\n", strings.Join(ds, ", "))
+	}
+	switch c.Cls[s-1] {
+	case "FAILA":
+		b.WriteString("      allow_failure: true\n")
+	case "CFALSE":
+		b.WriteString("      condition: \"false\"\n")
+	}
+}
+
 func composeCfgFile(n int) []byte {
-	return []byte(fmt.Sprintf("CONSTANTS\n  N = %d\n  MaxCmd = 3\n  MaxVar = 2\n  NCtx = %d\n  HookKinds = {\"none\", \"ok\", \"fail\"}\nINIT TInit\nNEXT TNext\nCONSTRAINT HW\nINVARIANTS CommandsAfterDependencies StopsAtFailure FinalOK RunOnlyWhileStageRunning UpBeforeUse DownAfterAll OneUpAtATime\nPOSTCONDITION PostCond\nCHECK_DEADLOCK FALSE\n", n, cmpNCtx))
+	return []byte(fmt.Sprintf("CONSTANTS\n  N = %d\n  MaxCmd = 3\n  MaxVar = 2\n  NCtx = %d\n  Nesting = TRUE\n  HookKinds = {\"none\", \"ok\", \"fail\"}\nINIT TInit\nNEXT TNext\nCONSTRAINT HW\nINVARIANTS CommandsAfterDependencies StopsAtFailure FinalOK RunOnlyWhileStageRunning UpBeforeUse DownAfterAll OneUpAtATime NothingRunsAtReturn\nPOSTCONDITION PostCond\nCHECK_DEADLOCK FALSE\n", n, cmpNCtx))
 }
 
 var reJobTag = regexp.MustCompile(`# ([sc])(\d+)-(up|down|cb|ca|tb|ta|cmd)\s*$`)
@@ -160,7 +205,7 @@ func ComposeCheck(env *core.Env, rep *core.Report, k int, models ...string) map[
 			w, to = 8, 30*time.Minute
 		}
 		mc := core.MustHold(env, core.TLCOpts{Module: "Taskctl", Config: "Taskctl_" + m + ".cfg", Workers: w, Timeout: to})
-		info["Taskctl_"+m] = map[string]interface{}{"distinct": mc.Distinct, "generated": mc.Generated, "result": "CommandsAfterDependencies, StopsAtFailure, UpBeforeUse, DownAfterAll, OneUpAtATime, FinalOK, RunOnlyWhileStageRunning, Terminates hold"}
+		info["Taskctl_"+m] = map[string]interface{}{"distinct": mc.Distinct, "generated": mc.Generated, "result": "CommandsAfterDependencies, StopsAtFailure, UpBeforeUse, DownAfterAll, OneUpAtATime, NothingRunsAtReturn, FinalOK, RunOnlyWhileStageRunning, Terminates hold"}
 	}
 	home := env.Sub("home")
 	type exec struct {
@@ -201,8 +246,9 @@ func ComposeCheck(env *core.Env, rep *core.Report, k int, models ...string) map[
 			status[j] = "W"
 		}
 		evs := []Event{{"e": "cfg", "n": c.N, "deps": c.Deps, "cls": c.Cls, "ncmd": c.NCmd, "failAt": c.FailAt,
-			"nvar": c.NVar, "ctx": c.Ctx, "hb": c.HB, "ha": c.HA, "upFails": c.UpFails}}
+			"nvar": c.NVar, "ctx": c.Ctx, "hb": c.HB, "ha": c.HA, "upFails": c.UpFails, "gr": c.Gr, "inc": c.Inc}}
 		var last map[string]interface{}
+		topGraph := 0
 		for sc.Scan() {
 			var e map[string]interface{}
 			if json.Unmarshal(sc.Bytes(), &e) != nil {
@@ -236,7 +282,15 @@ func ComposeCheck(env *core.Env, rep *core.Report, k int, models ...string) map[
 					ev["err"] = e["err"]
 				}
 				evs = append(evs, ev)
+			case "sched-enter":
+				if topGraph == 0 {
+					topGraph = toInt(e["g"]) // the first Schedule call is the pipeline that was asked for
+				}
 			case "sched-exit":
+				if toInt(e["g"]) != topGraph {
+					evs = append(evs, Event{"e": "nret"}) // a nested Schedule call returned
+					continue
+				}
 				if last == nil {
 					evs = append(evs, Event{"e": "done", "err": e["err"], "final": append([]string{}, status...)})
 				}
